@@ -2274,6 +2274,7 @@ class Attribute(object):
             arguments = adapter(obj._get_raw_pkval_())
             cursor = database._exec_sql(sql, arguments)
             row = cursor.fetchone()
+            if row is None: throw(UnrepeatableReadError, 'Phantom object %s disappeared' % safe_repr(obj))
             dbval = attr.parse_value(row, offsets, cache.dbvals_deduplication_cache)
             attr.db_set(obj, dbval)
         else: obj._load_()
